@@ -748,9 +748,20 @@ class Hugr(Mapping[Node, NodeData], Generic[OpVarCov]):
 
         def _serialize_link(
             link: tuple[_SO, _SI],
-        ) -> tuple[tuple[NodeIdx, PortOffset], tuple[NodeIdx, PortOffset]]:
+        ) -> tuple[
+            tuple[NodeIdx, PortOffset | None], tuple[NodeIdx, PortOffset | None]
+        ]:
             src, dst = link
-            s, d = self._constrain_offset(src.port), self._constrain_offset(dst.port)
+            s: PortOffset | None = self._constrain_offset(src.port)
+            d: PortOffset | None = self._constrain_offset(dst.port)
+            if src.port.offset < 0 and (
+                _order_port_offset(self[src.port.node].op, Direction.OUTGOING) is None
+                or _order_port_offset(self[dst.port.node].op, Direction.INCOMING)
+                is None
+            ):
+                # a state-order edge at an operation without an order port can
+                # only be told from a value edge by leaving the offsets out
+                s = d = None
             return (new_idx[src.port.node.idx], s), (new_idx[dst.port.node.idx], d)
 
         return SerialHugr(
